@@ -81,12 +81,16 @@ def gen(seed, tier):
             g.login(p.s)
         b = peers[-1]                       # the recipient
         senders = peers[:-1]
+        # one recipient in four lives in raw-UDP mode: what is forwarded to it arrives as one raw data frame per packet
+        b.raw = rng.randrange(4) == 0
+        if b.raw:
+            g.emit_dgram(b.s.addr, RAWHDR + bytes([0x10 | (b.s.uid & 15)]) + login_stub(g.password, (b.s.seed + 1) & 0xffffffff))
         b_ip = g.tun_ips[b.s.uid]
         offered = []                        # frames that may legitimately reach b
         own = []
         tag = 1
         # the recipient's own upstream traffic (to the outside): leaves a complete stream in its reassembly buffer
-        if rng.randrange(4):
+        if rng.randrange(4) and not b.raw:
             f = frame(rng, rng.choice([40, 80, 120]), 0x08080808, 0xB0)
             upstream(g, b, f, pieces=rng.choice([1, 2]))
             own.append(f)
@@ -132,7 +136,7 @@ def gen(seed, tier):
         # the recipient fetches: fragment size 100 (the default after the version handshake), seqno 1, 2, ... per packet
         first_fetch = len(g.events)
         ack = (0, 0)
-        for k, total in enumerate(sizes):
+        for k, total in enumerate([] if b.raw else sizes):
             nfr = (total + 99) // 100
             for j in range(nfr):
                 ping(g, b, *ack)
@@ -141,7 +145,7 @@ def gen(seed, tier):
         ping(g, b, *ack)
         ping(g, b, *ack)
         hs.append('H ' + g.cfg() + ' ; ' + ' ; '.join(g.events))
-        meta.append(dict(recipient='%d:%s:%d' % (2, b.s.addr[1].hex(), b.s.addr[2]), offered=offered, own=own, first_fetch=first_fetch,
+        meta.append(dict(recipient='%d:%s:%d' % (2, b.s.addr[1].hex(), b.s.addr[2]), offered=offered, own=own, first_fetch=first_fetch, raw=b.raw,
                          npeers=npeers, plan=[k for k, _ in plan]))
     return hs, meta
 
@@ -212,7 +216,18 @@ def monitor(h, m, out):
         toks = seg.split(' | ')[0].split(' ')
         for t in toks[1:]:
             mm = SEND_RE.match(t)
-            if not mm or '%s:%s:%s' % (mm.group(1), mm.group(2), mm.group(3)) != m['recipient'] or mm.group(5) is None:
+            if not mm or '%s:%s:%s' % (mm.group(1), mm.group(2), mm.group(3)) != m['recipient']:
+                continue
+            if m.get('raw'):
+                dg = bytes.fromhex(mm.group(4)) if mm.group(4) != '-' else b''
+                if len(dg) >= 4 and dg[:3] == RAWHDR and (dg[3] & 0xf0) == 0x20:
+                    if dg[4:] in ok:
+                        delivered += 1
+                    else:
+                        return (i, 'the raw-mode recipient %s is sent a data frame whose %d-byte payload is not the compressed form of a frame '
+                                'offered to it (offered: %s)' % (m['recipient'], len(dg) - 4, ', '.join('%d bytes' % (len(f) + 1) for f in m['offered']))), delivered
+                continue
+            if mm.group(5) is None:
                 continue
             rv = int(mm.group(6))
             dec = bytes.fromhex(mm.group(7)) if mm.group(7) not in ('-', '') else b''
